@@ -50,6 +50,7 @@ class Verifier(Calls):
         self.exit_kinds = {}
         self.no_typing = False
         self.iter_stack = []
+        self.iter_by_ord = {}
         self.global_overrides = {}
         self.static_dicts = {}
         self.keepalive = []
@@ -203,6 +204,7 @@ class Verifier(Calls):
         self.assumed_reads = set()
         self.keepalive = []
         self.iter_stack = []
+        self.iter_by_ord = {}
         self.static_dicts = {}
         self.global_overrides = {}
         self.fresh_objs = {}
@@ -405,6 +407,9 @@ class Verifier(Calls):
         ax.append(z3.Length(so.dict_order(so.EMPTY_KW)) == 0)
         ax.append(z3.ForAll([km], (z3.Length(so.dict_order(km)) == 0) == (km == so.EMPTY_KW)))
         ax.extend(cl.deliver_axioms())
+        ea = z3.Const("bea", SeqV)
+        ax.append(z3.ForAll([ea], cl._str_encode(z3.StringVal(""), ea) == z3.StringVal("")))     # "".encode(...) == b""
+        ax.append(z3.ForAll([ea], cl._bytes_decode(z3.StringVal(""), ea) == z3.StringVal("")))
         for name, vars_, expr in self.reg.axioms:
             ax.append(self.axiom_term(vars_, expr))
         return ax
@@ -550,6 +555,17 @@ def to_smt2(obl, background, extra_assumptions=()):
             break
     for b in chosen:
         s.add(b)
+    return s.to_smt2()
+
+
+def to_smt2_ground(obl):
+    """quantifier-free weakening: only the quantifier-free assumptions, no background (unsat here implies unsat of the full problem)"""
+    from .symex import has_quantifier
+    s = z3.Solver()
+    for a in obl.assumptions:
+        if not has_quantifier(a):
+            s.add(a)
+    s.add(z3.Not(obl.goal))
     return s.to_smt2()
 
 
